@@ -32,7 +32,7 @@ def base_scenario(rng, **o):
     dx = o.get("dx", 128.0)
     dy = o.get("dy", dx)
     shape = o.get("shape") or rng.choice([(10, 9), (10, 9), (8, 13), (13, 8)])
-    imax, jmax, N = o.get("imax", shape[0]), o.get("jmax", shape[1]), 2
+    imax, jmax, N = o.get("imax", shape[0]), o.get("jmax", shape[1]), o.get("N", rng.choice([2, 2, 2, 3, 4, 1]))
     M = [[1] * imax for _ in range(jmax)]
     for _ in range(o.get("nland", rng.randrange(0, 7))):
         M[rng.randrange(1, jmax - 1)][rng.randrange(1, imax - 1)] = 0
@@ -69,7 +69,7 @@ def base_scenario(rng, **o):
         j0 = rng.randrange(1, 3); j1 = rng.randrange(max(j0 + 5, jmax - 3), jmax)
         sub = [i0, i1, j0, j1]
     sc["subgrid"] = sub
-    sc["adv"] = o.get("adv", rng.choice(["EF", "RK2", "RK4"]))
+    sc["adv"] = o.get("adv", rng.choice(["EF", "RK2", "RK4", "EF", "RK2", "RK4", "EF", "RK2", "RK4", ""]))     # "" = no advection scheme
     sc["hasref"] = rng.random() < 0.6
     sc["ref"] = rng.choice([0, base_t - 3600, base_t + 5 * dt])
     # release
